@@ -31,6 +31,7 @@ typedef struct {
   rng_t* r;
   int ops_done, products, coeff_after_idft, idfts;
   int failed;
+  unsigned chain_k;  // the base 2^k for which this program's "carry chain" inputs are built
 } prog_t;
 
 static long double norm1(const i128* x, uint64_t N) { long double s = 0; for (uint64_t i = 0; i < N; i++) s += fabsl((long double)x[i]); return s; }
@@ -68,6 +69,43 @@ static void exact_normalize(uint64_t N, unsigned k, const i128* a, uint64_t a_si
     for (uint64_t i = a_size; i-- > 0;) dg[i] = big_centered_digit(&T, k);
     for (uint64_t i = 0; i < res_size; i++) out[i * N + c] = i < a_size ? dg[i] : 0;
   }
+}
+
+static val_t* newval(prog_t* P, vtype_t t, uint64_t size, uint64_t sl, const char* producer);
+static uint64_t rstride(prog_t* P);
+// a fresh integer input. Families: 0 uniform in a random bit length (the default); 1 "scaled": every coefficient of a limb
+// is a small multiple of 2^32 (32-bit data lifted to 64 bits); 2 "carry chain": many limbs, the lowest one just past the
+// rounding boundary of base 2^chain_k and the ones above exactly on it, so that a carry ripples through every limb that a
+// truncating normalisation discards
+static val_t* fresh_input(prog_t* P) {
+  rng_t* r = P->r;
+  const uint64_t N = P->N;
+  const unsigned fam = (unsigned)(rng_u64(r) % 8);
+  const int chain = fam == 7, scaled = fam == 6;
+  const uint64_t size = chain ? 6 + rng_u64(r) % 9 : 1 + rng_u64(r) % 3;
+  val_t* v = newval(P, T_ZNX, size, rstride(P), chain ? "input(carry-chain)" : (scaled ? "input(scaled)" : "input"));
+  if (!v) return 0;
+  const unsigned bits = 1 + (unsigned)(rng_u64(r) % (P->ntt ? 62 : 9));
+  const unsigned k = P->chain_k;
+  for (uint64_t i = 0; i < N; i++) {
+    const int sign = (rng_u64(r) & 1) ? 1 : -1;
+    const uint64_t top = chain ? rng_u64(r) % 3 : 0;  // limbs below `top` (most significant ones) stay random
+    const int this_chain = chain && (rng_u64(r) % 4) != 0;
+    for (uint64_t l = 0; l < size; l++) {
+      int64_t c = rng_sbits(r, bits);
+      if (P->ntt && (rng_u64(r) & 63) == 0) c = (rng_u64(r) & 1) ? INT64_MAX : INT64_MIN;
+      if (scaled) c = (int64_t)((uint64_t)rng_sbits(r, P->ntt ? 30 : 8) << 32);
+      if (this_chain && l >= top) {
+        const int64_t half = (int64_t)1 << (k - 1);
+        if (l == size - 1) c = sign > 0 ? half : -half - 1;       // least significant limb: produces a carry of +-1
+        else c = sign > 0 ? half - 1 : -half;                      // on the boundary: passes the carry on
+      }
+      zvec_limb(&v->z, l)[i] = c;
+      v->x[l * N + i] = c;
+    }
+  }
+  cntf("input_family:%s", 1, chain ? "carry-chain" : (scaled ? "scaled" : "uniform"));
+  return v;
 }
 
 static val_t* newval(prog_t* P, vtype_t t, uint64_t size, uint64_t sl, const char* producer) {
@@ -166,17 +204,7 @@ static int step(prog_t* P) {
   if (P->ntt && choice >= 9 && choice != 10 && choice != 11) choice %= 9;
   switch (choice) {
     case 0: {  // fresh input vector
-      val_t* v = newval(P, T_ZNX, 1 + rng_u64(r) % 3, rstride(P), "input");
-      if (!v) return 0;
-      unsigned bits = 1 + (unsigned)(rng_u64(r) % (P->ntt ? 62 : 9));
-      for (uint64_t l = 0; l < v->size; l++)
-        for (uint64_t i = 0; i < N; i++) {
-          int64_t c = rng_sbits(r, bits);
-          if (P->ntt && (rng_u64(r) & 63) == 0) c = (rng_u64(r) & 1) ? INT64_MAX : INT64_MIN;
-          zvec_limb(&v->z, l)[i] = c;
-          v->x[l * N + i] = c;
-        }
-      return 1;
+      return fresh_input(P) != 0;
     }
     case 1: case 2: case 3: case 4: {  // copy / negate / rotate / automorphism (optionally in place)
       val_t* a = pick(P, T_ZNX);
@@ -252,12 +280,12 @@ static int step(prog_t* P) {
     }
     case 7: case 8: {  // normalize (out of place / in place)
       val_t* a = pick(P, T_ZNX);
-      if (!a || a->size > 8 || norminf(a->x, a->size * N) > 0x1p62L) return 0;
+      if (!a || a->size > 14 || norminf(a->x, a->size * N) > 0x1p62L) return 0;
       const int inplace = choice == 8;
       const uint64_t rs = inplace ? a->size : rsize(P);
       val_t* res = inplace ? a : newval(P, T_ZNX, rs, rstride(P), "");
       if (!res) return 0;
-      const unsigned k = 1 + (unsigned)(rng_u64(r) % 62);
+      const unsigned k = (rng_u64(r) & 1) ? P->chain_k : 1 + (unsigned)(rng_u64(r) % 62);
       i128* nx = calloc((rs ? rs : 1) * N, sizeof(i128));
       exact_normalize(N, k, a->x, a->size, 1, nx, rs);
       gbuf_t gt;
@@ -481,7 +509,7 @@ static int step(prog_t* P) {
     case 20: case 21: {  // big normalize / range normalize -> ZNX
       val_t* a = pick(P, T_BIG);
       if (!a || norminf(a->x, a->size * N) > 0x1p62L) return 0;
-      const unsigned k = 1 + (unsigned)(rng_u64(r) % 62);
+      const unsigned k = (rng_u64(r) & 1) ? P->chain_k : 1 + (unsigned)(rng_u64(r) % 62);
       const uint64_t rs = rsize(P);
       uint64_t b = 0, e = a->size, st = 1;
       if (choice == 21) {
@@ -536,20 +564,25 @@ static void program_case(uint64_t N, int ntt, int native, unsigned prog, int len
   P.N = N;
   P.ntt = ntt;
   P.r = crng();
+  P.chain_k = 8 + (unsigned)(rng_u64(P.r) % 55);
   P.mod = get_module(N, ntt ? NTT120 : FFT64, native);
   for (int i = 0; i < 3; i++) {
     // start with a few inputs
     int saved = 0;
     (void)saved;
     prog_t* pp = &P;
-    val_t* v = newval(pp, T_ZNX, 1 + rng_u64(P.r) % 3, rstride(pp), "input");
-    unsigned bits = 1 + (unsigned)(rng_u64(P.r) % (ntt ? 62 : 9));
-    for (uint64_t l = 0; l < v->size; l++)
-      for (uint64_t c = 0; c < N; c++) {
-        int64_t x = rng_sbits(P.r, bits);
-        zvec_limb(&v->z, l)[c] = x;
-        v->x[l * N + c] = x;
-      }
+    if (i == 0) {
+      // the first value stays a plain small input: it becomes the prepared scalar of the program
+      val_t* v = newval(pp, T_ZNX, 1 + rng_u64(P.r) % 3, rstride(pp), "input");
+      unsigned bits = 1 + (unsigned)(rng_u64(P.r) % (ntt ? 62 : 9));
+      for (uint64_t l = 0; l < v->size; l++)
+        for (uint64_t c = 0; c < N; c++) {
+          int64_t x = rng_sbits(P.r, bits);
+          zvec_limb(&v->z, l)[c] = x;
+          v->x[l * N + c] = x;
+        }
+    } else
+      fresh_input(pp);
   }
   int guard = 0;
   if (!ntt) {
